@@ -916,6 +916,19 @@ func (ss *SpecSet) ParseSpecText(lines []string, wheres []string, pkg string) er
 		case "at":
 			// at <label>: use lemma(args) | assert expr | assume expr
 			j := strings.Index(rc.text, ": ")
+			if strings.HasPrefix(strings.TrimSpace(rc.text), "stmt[") {
+				// a text-keyed statement label ends at the last "]: " / "]#k: " before the hint keyword
+				j = -1
+				for _, kw := range []string{"assert ", "use ", "apply "} {
+					if k := strings.Index(rc.text, ": "+kw); k >= 0 && (j < 0 || k < j) {
+						// the label part must end with ] or ]#k
+						lbl := strings.TrimSpace(rc.text[:k])
+						if strings.HasSuffix(lbl, "]") || regexpHashSuffix(lbl) {
+							j = k
+						}
+					}
+				}
+			}
 			if j < 0 {
 				j = strings.Index(rc.text, ":")
 			}
@@ -1069,4 +1082,18 @@ func parseLemmaHeader(text string) (*Lemma, error) {
 		return nil, err
 	}
 	return &Lemma{Name: strings.TrimSpace(t[:i]), Params: params}, nil
+}
+
+// regexpHashSuffix reports whether s ends in ]#<digits>.
+func regexpHashSuffix(s string) bool {
+	i := strings.LastIndex(s, "]#")
+	if i < 0 || i+2 >= len(s) {
+		return false
+	}
+	for _, c := range s[i+2:] {
+		if c < '0' || c > '9' {
+			return false
+		}
+	}
+	return true
 }
